@@ -34,6 +34,8 @@ pub struct Outcome {
     /// numeric observations, summed by the driver
     pub counts: Vec<(String, u64)>,
     pub note: Option<J>,
+    /// named sets of strings; the driver unions them across cases and reports their sizes
+    pub sets: Vec<(String, Vec<String>)>,
 }
 
 impl Outcome {
@@ -50,6 +52,16 @@ impl Outcome {
         let t = t.into();
         if !self.tags.contains(&t) {
             self.tags.push(t);
+        }
+    }
+    pub fn set_add(&mut self, name: &str, member: impl Into<String>) {
+        let m = member.into();
+        if let Some(e) = self.sets.iter_mut().find(|e| e.0 == name) {
+            if !e.1.contains(&m) {
+                e.1.push(m);
+            }
+        } else {
+            self.sets.push((name.to_string(), vec![m]));
         }
     }
     pub fn count(&mut self, k: &str, n: u64) {
@@ -97,6 +109,9 @@ pub fn emit_end(case: u64, o: &Outcome) {
                 .map(|v| J::obj().set("class", J::s(v.class.clone())).set("site", J::s(v.site.clone())).set("detail", v.detail.clone()))
                 .collect()),
         );
+    if !o.sets.is_empty() {
+        j.put("sets", J::O(o.sets.iter().map(|(k, v)| (k.clone(), J::A(v.iter().map(|x| J::s(x.clone())).collect()))).collect()));
+    }
     if let Some(i) = &o.inconclusive {
         j.put("why", J::s(i.clone()));
     }
